@@ -3,6 +3,9 @@
 -/
 import CedarProofs.Nonce
 import CedarModel.Export
+import CedarProofs.CodecLemmas
+import CedarProofs.Handoff
+import CedarProofs.Blob
 
 namespace Cedar.C15
 
@@ -120,5 +123,134 @@ def est : Stream :=
 example : Clean est := by unfold Clean; decide
 example : (est.exportFields (fun _ => [])).isOk = true := by decide
 example : ∃ e, (({} : Stream).setKey 5 ivS).exportFields (fun _ => []) = .error e := ⟨_, rfl⟩
+
+/-! ### The blob as bytes, and the continuation after the hand-off -/
+
+theorem decode_encode (f : BlobFields) (wf : WfBlob f) : decodeBlob (encodeBlob f) = .ok f := by
+  obtain ⟨w1, w2, w3, w4, w5, w6, w7, w8, w9, w10, w11⟩ := wf
+  have lm := csMagic_len
+  have lv : (be16 csVersion).length = 2 := by simp [be16]
+  have lk : (beN 32 f.key).length = 32 := by simp
+  have le := ivBytes_len f.encIV w4
+  have ld := ivBytes_len f.decIV w6
+  have l4a : (be32 f.encCtr).length = 4 := by simp [be32]
+  have l4b : (be32 f.decCtr).length = 4 := by simp [be32]
+  -- right-nested form of the blob
+  have hb : encodeBlob f = csMagic ++ (be16 csVersion ++ ([UInt8.ofNat f.flags] ++ (beN 32 f.key ++ (ivBytes f.encIV ++
+      (ivBytes f.decIV ++ (be32 f.encCtr ++ (be32 f.decCtr ++ (varField f.fs ++ (varField f.fr ++ varField f.peer))))))))) := by
+    simp [encodeBlob, List.append_assoc]
+  have hlen : ¬ (encodeBlob f).length < csFixedLen := by
+    rw [hb]; simp only [List.length_append, lm, lv, lk, le, ld, l4a, l4b, List.length_cons, List.length_nil]
+    unfold csFixedLen stream.cryptoStateFixedLen; omega
+  unfold decodeBlob
+  rw [if_neg hlen]
+  have t4 : (encodeBlob f).take 4 = csMagic := by rw [hb]; exact List.take_left' lm
+  rw [if_neg (by rw [t4]; exact fun h => h rfl)]
+  have d4 : (encodeBlob f).drop 4 = be16 csVersion ++ ([UInt8.ofNat f.flags] ++ (beN 32 f.key ++ (ivBytes f.encIV ++
+      (ivBytes f.decIV ++ (be32 f.encCtr ++ (be32 f.decCtr ++ (varField f.fs ++ (varField f.fr ++ varField f.peer)))))))) := by
+    rw [hb]; exact List.drop_left' lm
+  have hv : beVal (((encodeBlob f).drop 4).take 2) = csVersion := by
+    rw [d4, List.take_left' lv]; exact beVal_be16 _ (by unfold csVersion stream.cryptoStateVersion; omega)
+  rw [if_neg (by rw [hv]; exact fun h => h rfl)]
+  have d6 : (encodeBlob f).drop 6 = [UInt8.ofNat f.flags] ++ (beN 32 f.key ++ (ivBytes f.encIV ++
+      (ivBytes f.decIV ++ (be32 f.encCtr ++ (be32 f.decCtr ++ (varField f.fs ++ (varField f.fr ++ varField f.peer))))))) := by
+    have : (encodeBlob f).drop 6 = ((encodeBlob f).drop 4).drop 2 := by rw [List.drop_drop]
+    rw [this, d4]; exact List.drop_left' lv
+  have d7 : (encodeBlob f).drop 7 = beN 32 f.key ++ (ivBytes f.encIV ++
+      (ivBytes f.decIV ++ (be32 f.encCtr ++ (be32 f.decCtr ++ (varField f.fs ++ (varField f.fr ++ varField f.peer)))))) := by
+    have : (encodeBlob f).drop 7 = ((encodeBlob f).drop 6).drop 1 := by rw [List.drop_drop]
+    rw [this, d6]; rfl
+  have d39 : (encodeBlob f).drop 39 = ivBytes f.encIV ++
+      (ivBytes f.decIV ++ (be32 f.encCtr ++ (be32 f.decCtr ++ (varField f.fs ++ (varField f.fr ++ varField f.peer))))) := by
+    have : (encodeBlob f).drop 39 = ((encodeBlob f).drop 7).drop 32 := by rw [List.drop_drop]
+    rw [this, d7]; exact List.drop_left' lk
+  have d55 : (encodeBlob f).drop 55 =
+      ivBytes f.decIV ++ (be32 f.encCtr ++ (be32 f.decCtr ++ (varField f.fs ++ (varField f.fr ++ varField f.peer)))) := by
+    have : (encodeBlob f).drop 55 = ((encodeBlob f).drop 39).drop 16 := by rw [List.drop_drop]
+    rw [this, d39]; exact List.drop_left' le
+  have d71 : (encodeBlob f).drop 71 =
+      be32 f.encCtr ++ (be32 f.decCtr ++ (varField f.fs ++ (varField f.fr ++ varField f.peer))) := by
+    have : (encodeBlob f).drop 71 = ((encodeBlob f).drop 55).drop 16 := by rw [List.drop_drop]
+    rw [this, d55]; exact List.drop_left' ld
+  have d75 : (encodeBlob f).drop 75 = be32 f.decCtr ++ (varField f.fs ++ (varField f.fr ++ varField f.peer)) := by
+    have : (encodeBlob f).drop 75 = ((encodeBlob f).drop 71).drop 4 := by rw [List.drop_drop]
+    rw [this, d71]; exact List.drop_left' l4a
+  have d79 : (encodeBlob f).drop 79 = varField f.fs ++ (varField f.fr ++ varField f.peer) := by
+    have : (encodeBlob f).drop 79 = ((encodeBlob f).drop 75).drop 4 := by rw [List.drop_drop]
+    rw [this, d75]; exact List.drop_left' l4b
+  simp only []
+  rw [d6, d7, d39, d55, d71, d75, d79]
+  rw [List.take_left' lk, List.take_left' le, List.take_left' ld, List.take_left' l4a, List.take_left' l4b]
+  rw [readVar_varField _ _ w9]
+  simp only []
+  rw [readVar_varField _ _ w10]
+  simp only []
+  have hp : readVar (varField f.peer) = .ok (f.peer, []) := by
+    have := readVar_varField f.peer [] w11
+    simpa using this
+  rw [hp]
+  simp only []
+  rw [beVal_beN32 _ w2, ivOfBytes_ivBytes _ w3 w4, ivOfBytes_ivBytes _ w5 w6, beVal_be32' _ w7, beVal_be32' _ w8]
+  have hfl : ((([UInt8.ofNat f.flags] ++ (beN 32 f.key ++ (ivBytes f.encIV ++ (ivBytes f.decIV ++ (be32 f.encCtr ++
+      (be32 f.decCtr ++ (varField f.fs ++ (varField f.fr ++ varField f.peer)))))))).take 1).headD 0).toNat = f.flags := by
+    simp only [List.singleton_append, List.take_succ_cons, List.take_zero, List.headD_cons]
+    simp [UInt8.toNat_ofNat']; omega
+  rw [hfl]
+
+
+/-- **blob_roundtrip**: parsing the bytes `ExportCryptoState` writes gives back exactly the fields
+    that were written — for every key, IV pair, counter pair, flag byte, digests and peer address
+    in range. -/
+theorem blob_roundtrip (f : BlobFields) (wf : WfBlob f) : importBlob (encodeBlob f) = .ok (importFields f) := by
+  unfold importBlob; rw [decode_encode f wf]
+
+/-- **handoff_sim**: the stream built from an accepted export agrees with the exporting stream on
+    every field except the digest bookkeeping (carried as opaque bytes, unused once both first
+    frames have passed) and two scratch fields. -/
+theorem handoff_sim (sha : Bytes → Bytes) (s : Stream) (f : BlobFields) (h : s.exportFields sha = .ok f) :
+    Sim s (importFields f) := by
+  obtain ⟨h1, h2, h3, h4, h5, h6, h7, h8, h9, h10, h11, h12, h13, h14, h15⟩ := import_export sha s f h
+  have clean := (export_refused_iff sha s).mp ⟨f, h⟩
+  refine ⟨⟨(importFields f).dig, (importFields f).beforeSecret, (importFields f).totalMsg, ?_⟩, clean.2.2.1, clean.2.2.2.1⟩
+  generalize importFields f = t at *
+  cases t; cases s
+  simp only [Stream.mk.injEq] at *
+  simp_all
+
+/-- **handoff_transparent**: after the hand-off the receiving process continues the session exactly
+    as the exporting process would have. For EVERY sequence of operations (sends, buffered writes,
+    message ends, secrets, crypto toggles, receives of arbitrary — also adversarial — frames) the
+    imported stream puts the same frames on the wire as the original would, and for every wire it
+    delivers the same messages. Together with `C12.nonce_sequence` (no nonce reuse from the restored
+    counter) and `C02.recv_prefix_midstream` (only an authentic prefix is delivered) this is the
+    property's "resumes the session exactly". -/
+theorem handoff_transparent (sha : Bytes → Bytes) (s : Stream) (f : BlobFields) (h : s.exportFields sha = .ok f) :
+    (∀ ops : List Op, ((importFields f).run ops).2 = (s.run ops).2) ∧
+    (∀ (n : Nat) (w : List WireFrame), Stream.deliverFuel n (importFields f) w = Stream.deliverFuel n s w) := by
+  have hs := handoff_sim sha s f h
+  exact ⟨fun ops => (run_sim ops hs).1.symm, fun n w => (deliverFuel_sim n w hs).symm⟩
+
+/-- chained hand-offs: the relation composes, so a session handed from process to process keeps
+    behaving as the original -/
+theorem handoff_chain (sha : Bytes → Bytes) (s : Stream) (f g : BlobFields) (ops : List Op)
+    (h1 : s.exportFields sha = .ok f)
+    (h2 : ((importFields f).run ops).1.exportFields sha = .ok g) (ops' : List Op) :
+    ((importFields g).run ops').2 = ((s.run ops).1.run ops').2 := by
+  have a := run_sim ops (handoff_sim sha s f h1)
+  have b := handoff_sim sha _ g h2
+  have c := run_sim ops' a.2
+  have d := run_sim ops' b
+  rw [c.1, d.1]
+
+/-- non-vacuity: a concrete established stream exports, its blob is well formed, and the imported
+    stream's next frame equals the original's -/
+private def demoS : Stream :=
+  { key := some 5, encrypted := true, encIV := ⟨7, List.replicate 12 1⟩, decIV := ⟨9, List.replicate 12 2⟩,
+    encCtr := 3, decCtr := 4, finSendAAD := true, finRecvAAD := true,
+    dig := { finalSend := some .zero, finalRecv := some .zero } }
+
+example : (demoS.exportFields (fun _ => [])).isOk = true := by decide
+example : ∀ f, demoS.exportFields (fun _ => []) = .ok f → ((importFields f).run [.send [1, 2] 1]).2 = (demoS.run [.send [1, 2] 1]).2 :=
+  fun f h => (handoff_transparent _ _ f h).1 _
 
 end Cedar.C15
